@@ -119,56 +119,95 @@ func c20Main(rc *RunCtx) {
 		T = 500 * time.Millisecond
 	}
 	delays := []time.Duration{0, time.Millisecond, T / 2, T - time.Nanosecond, T, T + time.Nanosecond, T + time.Millisecond, 2 * T, 3 * T}
+	// Calls start back to back, overlapping, or far apart: a later call may draw
+	// the pooled threshold timer of an earlier one whose workers are still around.
+	type pend struct {
+		cl           *c20call
+		qCtx         *query_context.Context
+		respAtReturn *dns.Msg
+		q            *dns.Msg
+	}
+	var pends []*pend
+	done := make(chan struct{}, 8)
+	gaps := []time.Duration{0, 0, time.Millisecond, T / 2, T, 2 * T, 12 * time.Second}
 	for i := 0; i < c.calls && rc.Viol == nil; i++ {
+		i := i
 		cl := &c20call{tc: -1, ctxKind: "none"}
 		cl.p.Outcome = simrt.S.Rng().Weighted(5, 2, 2, 1, 1)
 		cl.s.Outcome = simrt.S.Rng().Weighted(5, 2, 2, 1, 1)
 		cl.p.Delay = delays[simrt.Choose(len(delays))]
 		cl.s.Delay = delays[simrt.Choose(len(delays))]
-		fb := fallback.NewFallbackForVerif(c20Exec(&cl.p, "p"), c20Exec(&cl.s, "s"), c.thrMs, c.standby)
-		q := mkQuery(fmt.Sprintf("f%d.test.", i), dns.TypeA, uint16(simrt.Choose(65536)))
-		qCtx := query_context.NewContext(q)
-		ctx := context.Background()
-		var cancel context.CancelFunc
-		cl.t0 = simrt.S.Elapsed()
-		switch simrt.Choose(5) {
-		case 0:
-			d := delays[simrt.Choose(len(delays))] + time.Duration(simrt.Choose(2))*T
-			ctx, cancel = context.WithTimeout(ctx, d)
-			cl.tc, cl.ctxKind = cl.t0+d, "deadline"
-		case 1:
-			d := delays[simrt.Choose(len(delays))]
-			ctx, cancel = context.WithCancel(ctx)
-			cl.tc, cl.ctxKind = cl.t0+d, "cancel"
-			cf := cancel
-			simrt.GoNamed("cancel", func() {
-				simrt.Sleep(0, d)
-				simrt.Fault("ctx_cancel")
-				cf()
-			}).Daemon = true
-		}
-		err := fb.Exec(ctx, qCtx)
-		cl.tr = simrt.S.Elapsed()
-		cl.err = err
-		if err == nil {
-			if r := qCtx.R(); r != nil {
-				for _, rr := range r.Answer {
-					if t, ok := rr.(*dns.TXT); ok && len(t.Txt) == 1 && len(t.Txt[0]) == 6 {
-						cl.who = t.Txt[0][5:]
-					}
-				}
-				if r.Id != q.Id {
-					rc.Fail("wrong_id", "reply ID %d for query %d", r.Id, q.Id)
-				}
+		pd := &pend{cl: cl}
+		pends = append(pends, pd)
+		wait := i > 0 && simrt.Choose(2) == 0 // wait for the previous call to return first
+		if i > 0 {
+			if wait {
+				simrt.Recv(0, done)
+				done <- struct{}{}
+			}
+			if g := gaps[simrt.Choose(len(gaps))]; g > 0 {
+				simrt.Sleep(0, g)
 			}
 		}
-		if cancel != nil {
-			defer cancel()
+		simrt.GoNamed(fmt.Sprintf("call%d", i), func() {
+			defer simrt.Send(0, done, struct{}{})
+			fb := fallback.NewFallbackForVerif(c20Exec(&cl.p, "p"), c20Exec(&cl.s, "s"), c.thrMs, c.standby)
+			q := mkQuery(fmt.Sprintf("f%d.test.", i), dns.TypeA, uint16(simrt.Choose(65536)))
+			qCtx := query_context.NewContext(q)
+			pd.q, pd.qCtx = q, qCtx
+			ctx := context.Background()
+			var cancel context.CancelFunc
+			cl.t0 = simrt.S.Elapsed()
+			switch simrt.Choose(5) {
+			case 0:
+				d := delays[simrt.Choose(len(delays))] + time.Duration(simrt.Choose(2))*T
+				ctx, cancel = context.WithTimeout(ctx, d)
+				cl.tc, cl.ctxKind = cl.t0+d, "deadline"
+			case 1:
+				d := delays[simrt.Choose(len(delays))]
+				ctx, cancel = context.WithCancel(ctx)
+				cl.tc, cl.ctxKind = cl.t0+d, "cancel"
+				cf := cancel
+				simrt.GoNamed("cancel", func() {
+					simrt.Sleep(0, d)
+					simrt.Fault("ctx_cancel")
+					cf()
+				}).Daemon = true
+			}
+			err := fb.Exec(ctx, qCtx)
+			cl.tr = simrt.S.Elapsed()
+			cl.err = err
+			if err == nil {
+				if r := qCtx.R(); r != nil {
+					for _, rr := range r.Answer {
+						if t, ok := rr.(*dns.TXT); ok && len(t.Txt) == 1 && len(t.Txt[0]) == 6 {
+							cl.who = t.Txt[0][5:]
+						}
+					}
+					if r.Id != q.Id {
+						rc.Fail("wrong_id", "reply ID %d for query %d", r.Id, q.Id)
+					}
+				}
+			}
+			pd.respAtReturn = qCtx.R()
+			if cancel != nil {
+				// the caller's context ends when the caller is done with the call
+				// (as the server's per-query context does), not at the end of the run
+				cancel()
+			}
+		})
+	}
+	for range pends {
+		simrt.Recv(0, done)
+	}
+	// let every worker finish before judging (they run on their own deadline)
+	simrt.Sleep(0, 12*time.Second)
+	for _, pd := range pends {
+		if rc.Viol != nil {
+			break
 		}
-		respAtReturn := qCtx.R()
-		// let both workers finish before judging (they run on their own deadline)
-		simrt.Sleep(0, 12*time.Second)
-		if later := qCtx.R(); later != respAtReturn {
+		cl := pd.cl
+		if later := pd.qCtx.R(); later != pd.respAtReturn {
 			whoLater := "<none>"
 			if later != nil {
 				for _, rr := range later.Answer {
@@ -178,6 +217,7 @@ func c20Main(rc *RunCtx) {
 				}
 			}
 			rc.Fail("response_changed_after_return", "Exec returned (from=%q err=%v) and later the caller's query context holds the answer from=%q: a worker wrote to the caller's context after the call ended", cl.who, cl.err, whoLater)
+			break
 		}
 		c20Check(rc, c, cl, T)
 	}
